@@ -703,6 +703,49 @@ theorem inside_ancestor_preserves_outside (S : Schema) (doc doc' : Node) (pos : 
   rw [show r.start k - 1 + 1 = r.start k by omega, show r.end_ k + 1 - 1 = r.end_ k by omega] at this
   exact this
 
+/-- **a replace-around step inside an ancestor keeps that ancestor closed** when (i) the slice's open
+    start does not reach the ancestor's level — the nesting level at the step's start is at least
+    `k + openStart` — and (ii) the gap is balanced and none of its prefixes closes more than it opened
+    (a node range).  Then, if the step applies, inside the ancestor's new content window
+    `[start(k), end(k) + Δ]` (`Δ` the size change) the nesting level never drops below `k`: none of the
+    tokens in it closes the ancestor, whose open token is still matched by its old close token — the
+    node is neither split nor merged with a neighbour. -/
+theorem around_keeps_node_closed (S : Schema) (doc doc' : Node) (pos : Nat) (r : RPos)
+    (hr : doc.resolve pos = some r) (k : Nat) (hk : k ≤ r.depth)
+    (F T gs ge : Nat) (sl : Slice) (i : Nat) (c : Bool)
+    (hwf : sl.wf = true) (hi : (i : Int) ≤ sl.size)
+    (h1 : r.start k ≤ F) (h2 : F ≤ gs) (h3 : gs ≤ ge) (h4 : ge ≤ T) (h5 : T ≤ r.end_ k)
+    (hopen : (k : Int) + sl.openStart ≤ balance ((ftoks doc.kids).take F))
+    (hgap0 : balance (C09.window (ftoks doc.kids) gs (ge - gs)) = 0)
+    (hgap : ∀ m, 0 ≤ balance ((C09.window (ftoks doc.kids) gs (ge - gs)).take m))
+    (h : S.apply (.replaceAround F T gs ge sl i c) doc = .ok doc') :
+    ∀ j, r.start k ≤ j → j + fsize doc.kids ≤ r.end_ k + fsize doc'.kids →
+      (k : Int) ≤ balance ((ftoks doc'.kids).take j) := by
+  have R := resolve_resolved hr
+  have n0 := R.nestW 0 k (by omega) hk
+  have e0 : r.end_ 0 = fsize doc.kids := by simp [RPos.end_, RPos.start, R.node_zero]
+  obtain ⟨etoks, hT, _⟩ := apply_replaceAround_toks S doc doc' F T gs ge sl i c hwf hi ⟨h2, h3, h4⟩ h
+  unfold C09.window at hgap0 hgap
+  generalize hgapdef : ((ftoks doc.kids).drop gs).take (ge - gs) = gap at etoks hgap0 hgap
+  have hgl : gap.length = ge - gs := by
+    rw [← hgapdef]; simp only [List.length_take, List.length_drop, ftoks_length]; omega
+  have etoks' : ftoks doc'.kids = (ftoks doc.kids).take F ++ (sl.toks.take i ++ gap ++ sl.toks.drop i) ++
+      (ftoks doc.kids).drop T := by rw [etoks]; simp only [List.append_assoc]
+  have hlen := congrArg List.length etoks'
+  simp only [List.length_append, List.length_take, List.length_drop, ftoks_length, hgl] at hlen
+  have hsum : min i sl.toks.length + (sl.toks.length - i) = sl.toks.length := by omega
+  intro j hj1 hj2
+  have hb := splice_balance (ftoks doc.kids) (sl.toks.take i ++ gap ++ sl.toks.drop i) F T
+    (balance_ftoks _) (by rw [← etoks']; exact balance_ftoks _)
+  rw [etoks']
+  refine splice_keeps_level (ftoks doc.kids) _ (r.start k) (r.end_ k) F T k (by omega) h1 h5
+    (by rw [ftoks_length]; omega) (fun j' a b => balance_in_ancestor hr k hk j' a b) ?_ hb j hj1 ?_
+  · intro n
+    have := around_prefix_level sl hwf i gap hgap hgap0 n
+    omega
+  · simp only [List.length_append, List.length_take, List.length_drop, hgl]
+    omega
+
 /-- **lift of a selection inside an isolating node**: the selection `f ≤ t` lies inside the content of
     an isolating node (depth `k`; not at node level, `hdeep`), the range is the library's own
     `block_range`, the target its own `lift_target`, the step the one `tr.lift(range, target)` builds.
@@ -722,31 +765,46 @@ theorem lift_of_selection_inside (S : Schema) (doc doc' : Node) (f t : Nat) (hft
     insideNode (rf.start k - 1) (rf.end_ k + 1) st = true ∧
     (ftoks doc'.kids).take (rf.start k) = (ftoks doc.kids).take (rf.start k) ∧
     (ftoks doc'.kids).drop (rf.end_ k + fsize doc'.kids - fsize doc.kids) = (ftoks doc.kids).drop (rf.end_ k) ∧
-    fsize doc.kids ≤ rf.end_ k + fsize doc'.kids := by
+    fsize doc.kids ≤ rf.end_ k + fsize doc'.kids ∧
+    ∀ j, rf.start k ≤ j → j + fsize doc.kids ≤ rf.end_ k + fsize doc'.kids →
+      (k : Int) ≤ balance ((ftoks doc'.kids).take j) := by
   have Rf := resolve_resolved hf
   have Rt := resolve_resolved ht
   have pf := Rf.pos_in k hkf
   have pt := Rt.pos_in k hkt
   obtain ⟨_, _, he, _⟩ := same_ancestors Rf Rt k (rf.start k) hkf hkt (Nat.le_refl _) (by omega)
     (by omega) (by omega) k (Nat.le_refl _)
+  obtain ⟨_, _, _, _, bs, be, _, _, _, _, _, _, _, bg0, bg⟩ :=
+    C09.blockRange_bounds_spec S doc f t hft rf rt hf ht d s e hbr
   obtain ⟨hkd, _⟩ := blockRange_inside_isolating S doc f t hft rf rt hf ht k hk1 hkf hkt hsame hdeep d s e hbr
   have hktg := liftTarget_stays_inside S doc f t d tg rf rt hf ht htg k hkd hiso
   obtain ⟨htd, hdf, hdt, _⟩ := liftTarget_not_across_isolating S doc f t d tg rf rt hf ht htg
   simp only [liftStep, hf, ht] at hst
-  obtain ⟨_, _, F, T, gs, ge, sl, i, rfl, _, _, w1, w2, w3, w4, w5, w6, w7⟩ :=
+  obtain ⟨_, _, F, T, gs, ge, sl, i, rfl, g1, g2, w1, w2, w3, w4, w5, w6, w7, w8⟩ :=
     liftStepR_inside hf ht hft d tg (by omega) st hst
+  rw [bs] at g1
+  rw [be] at g2
+  simp only [Option.some.injEq] at g1 g2
+  subst g1 g2
   have nf := Rf.nestW k tg hktg (by omega)
   have nt := Rt.nestW k tg hktg (by omega)
   obtain ⟨hs1, _⟩ := ancestor_window_in_doc hf k hk1 hkf
-  have hm : insideNode (rf.start k - 1) (rf.end_ k + 1) (.replaceAround F T gs ge sl i true) = true := by
+  have hm : insideNode (rf.start k - 1) (rf.end_ k + 1) (.replaceAround F T s e sl i true) = true := by
     simp only [insideNode, Bool.and_eq_true, decide_eq_true_eq]
     omega
-  refine ⟨hktg, htd, hm, ?_⟩
-  refine inside_ancestor_preserves_outside S doc doc' f rf hf k hk1 hkf _ hm ?_ h
-  intro f' t' gf gt sl' i' c e'
-  simp only [Step.replaceAround.injEq] at e'
-  obtain ⟨rfl, rfl, rfl, rfl, rfl, rfl, _⟩ := e'
-  exact ⟨w1, w2, w3, w4, w5⟩
+  obtain ⟨o1, o2, o3⟩ := inside_ancestor_preserves_outside S doc doc' f rf hf k hk1 hkf _ hm
+    (by
+      intro f' t' gf gt sl' i' c e'
+      simp only [Step.replaceAround.injEq] at e'
+      obtain ⟨rfl, rfl, rfl, rfl, rfl, rfl, _⟩ := e'
+      exact ⟨w1, w2, w3, w4, w5⟩) h
+  refine ⟨hktg, htd, hm, o1, o2, o3, ?_⟩
+  -- the level at the step's start: at least `d` in front of the range, one less per token moved over
+  have lv := balance_take_before hf d s bs
+  have lv2 := balance_take_sub (ftoks doc.kids) s (s - F)
+  rw [show s - (s - F) = F by omega] at lv2
+  exact around_keeps_node_closed S doc doc' f rf hf k hkf F T s e sl i true w1 w2 (by omega) w3 w4 w5
+    (by omega) (by omega) bg0 bg h
 
 /-- **wrap of a selection inside an isolating node**: the range is the library's own `block_range` of
     the selection, the wrappers are arbitrary (in particular those `find_wrapping(range, type)` answers);
@@ -765,14 +823,18 @@ theorem wrap_of_selection_inside (S : Schema) (doc doc' : Node) (f t : Nat) (hft
     insideNode (rf.start k - 1) (rf.end_ k + 1) st = true ∧
     (ftoks doc'.kids).take (rf.start k) = (ftoks doc.kids).take (rf.start k) ∧
     (ftoks doc'.kids).drop (rf.end_ k + fsize doc'.kids - fsize doc.kids) = (ftoks doc.kids).drop (rf.end_ k) ∧
-    fsize doc.kids ≤ rf.end_ k + fsize doc'.kids := by
+    fsize doc.kids ≤ rf.end_ k + fsize doc'.kids ∧
+    ∀ j, rf.start k ≤ j → j + fsize doc.kids ≤ rf.end_ k + fsize doc'.kids →
+      (k : Int) ≤ balance ((ftoks doc'.kids).take j) := by
+  obtain ⟨_, _, _, _, _, _, _, _, _, _, _, _, _, bg0, bg⟩ :=
+    C09.blockRange_bounds_spec S doc f t hft rf rt hf ht d s e hbr
   obtain ⟨d', s', e', h', _, _, _, q1, q2, q3, _, _, q4⟩ :=
     blockRange_inside_ancestor S doc f t hft rf rt hf ht k hkf hkt hsame hdeep
   rw [h'] at hbr
   simp only [Except.ok.injEq, Option.some.injEq, Prod.mk.injEq] at hbr
   obtain ⟨rfl, rfl, rfl⟩ := hbr
   simp only [wrapStep, hf, ht] at hst
-  obtain ⟨s2, e2, sl, rfl, p1, p2, w1, w2, w3⟩ := wrapStepR_inside S hf ht hft d' ws st hst
+  obtain ⟨s2, e2, sl, rfl, p1, p2, w1, w2, w3, hos⟩ := wrapStepR_inside S hf ht hft d' ws st hst
   rw [q1] at p1
   rw [q2] at p2
   simp only [Option.some.injEq] at p1 p2
@@ -781,12 +843,16 @@ theorem wrap_of_selection_inside (S : Schema) (doc doc' : Node) (f t : Nat) (hft
   have hm : insideNode (rf.start k - 1) (rf.end_ k + 1) (.replaceAround s' e' s' e' sl ws.length true) = true := by
     simp only [insideNode, Bool.and_eq_true, decide_eq_true_eq]
     omega
-  refine ⟨⟨sl, rfl⟩, hm, ?_⟩
-  refine inside_ancestor_preserves_outside S doc doc' f rf hf k hk1 hkf _ hm ?_ h
-  intro f' t' gf gt sl' i' c e'
-  simp only [Step.replaceAround.injEq] at e'
-  obtain ⟨rfl, rfl, rfl, rfl, rfl, rfl, _⟩ := e'
-  exact ⟨w1, w2, Nat.le_refl _, w3, Nat.le_refl _⟩
+  obtain ⟨o1, o2, o3⟩ := inside_ancestor_preserves_outside S doc doc' f rf hf k hk1 hkf _ hm
+    (by
+      intro f' t' gf gt sl' i' c e'
+      simp only [Step.replaceAround.injEq] at e'
+      obtain ⟨rfl, rfl, rfl, rfl, rfl, rfl, _⟩ := e'
+      exact ⟨w1, w2, Nat.le_refl _, w3, Nat.le_refl _⟩) h
+  refine ⟨⟨sl, rfl⟩, hm, o1, o2, o3, ?_⟩
+  have lv := balance_in_ancestor hf k hkf s' q3 (by omega)
+  exact around_keeps_node_closed S doc doc' f rf hf k hkf s' e' s' e' sl ws.length true w1 w2 q3
+    (Nat.le_refl _) w3 (Nat.le_refl _) q4 (by rw [hos]; omega) bg0 bg h
 
 
 /-- **split at a position inside an isolating node**: `can_split(doc, pos, depth)` approved, the step is
